@@ -78,6 +78,33 @@ def compute_null_space_matrix(matrix: torch.Tensor) -> torch.Tensor:
             # Convert back to original dtype before returning
             return H.to(matrix.dtype)
 
+    # Binary matrices: compute the null space over GF(2) by Gaussian elimination
+    if torch.all((matrix_float == 0) | (matrix_float == 1)):
+        A = matrix_float.to(torch.int64).clone()
+        pivot_columns = []
+        r = 0
+        for c in range(n):
+            if r == k:
+                break
+            candidates = torch.nonzero(A[r:, c])
+            if candidates.numel() == 0:
+                continue
+            p = r + int(candidates[0])
+            if p != r:
+                A[[r, p]] = A[[p, r]]
+            for i in range(k):
+                if i != r and A[i, c] == 1:
+                    A[i] = (A[i] + A[r]) % 2
+            pivot_columns.append(c)
+            r += 1
+        free_columns = [c for c in range(n) if c not in pivot_columns]
+        H = torch.zeros((len(free_columns), n), dtype=matrix.dtype)
+        for i, f in enumerate(free_columns):
+            H[i, f] = 1
+            for row, c in enumerate(pivot_columns):
+                H[i, c] = A[row, f]
+        return H
+
     # If systematic form wasn't detected or verification failed, use SVD
     U, S, V = torch.linalg.svd(matrix_float, full_matrices=True)
 
